@@ -25,6 +25,9 @@ from idiom_mutants import IDIOM_MUTANTS  # noqa: E402
 # refactoring + mutant combinations where the mutant no longer changes behaviour (so silence is right)
 EQUIVALENT = {
     ("R20-3", "pyq-hex-regex-lower"): "R20-3 validates escapes through a table; _IS_HEX is still defined but unused",
+    ("S01", "pyq-hex-regex-lower"): "table-driven variant: _IS_HEX is defined but unused",
+    ("S05", "pyq-hex-regex-lower"): "table-driven variant: _IS_HEX is defined but unused",
+    ("S06", "pyq-hex-regex-lower"): "table-driven variant: _IS_HEX is defined but unused",
 }
 
 
